@@ -17,6 +17,7 @@ mod c13;
 mod c11;
 mod c06;
 mod race;
+mod pty;
 fn main() {
     // run the harness on a thread named "main" regardless of how it was started
     let a: Vec<String> = std::env::args().collect();
@@ -58,6 +59,8 @@ fn main() {
         "C03" | "C02" | "C04" => multi::run(seed, tier, &mut out, false),
         "C03b" => multi::run(seed, tier, &mut out, true),
         "C19M" => multi::run_small(seed, tier, &mut out),
+        "C01P" => pty::run(seed, tier, &mut out),
+        "C03P" => pty::run_multi(seed, tier, &mut out),
         "C01S" => race::run(seed, tier, &mut out, false),
         "C03S" => race::run(seed, tier, &mut out, true),
         "GIVEN" => multi::run_given(&mut out),
